@@ -118,7 +118,9 @@ def run(ctx, focus="C05"):
             case = e1.gen_case(ctx.rng, hostile_p=0.03, max_nodes=ctx.rng.choice([8, 20, 40, 80 if ctx.thorough else 40]))
             heap = e1.read_heap(case)
             desc = e1.describe(case, heap)
-            snaps, raised = e1.run_impl(case)
+            # a quarter of the cases hand their watch expressions over as the fields of a log message: same limits, same table
+            as_fields = bool(case["watches"]) and ctx.rng.random() < 0.25
+            snaps, raised = e1.run_impl(case, as_log_fields=as_fields)
             ctx.case(dict(limits=desc["limits"], frame_type=desc["frame_type"], heap=[(h["ty"], h["kind"], len(h["children"])) for h in desc["heap"]]),
                      nontrivial=bool(snaps and snaps[0].var_lookup), bucket="max_vars=%s" % case["limits"]["max_vars"])
             if raised is not None or len(snaps) != 1:
